@@ -80,6 +80,122 @@ fn static_waker() -> Waker {
     unsafe { Waker::from_raw(std::task::RawWaker::new(std::ptr::null(), &S_VTABLE)) }
 }
 
+/// A caller waker with one record per clone: `clone` hands out a new data pointer, every record is
+/// released exactly once, and a wake must arrive through a record that is still live (executors
+/// that keep a list node per waker do this). Records live in statics and are never freed, so a
+/// wake or release through a dead record is recorded instead of crashing.
+const N_RECS: usize = 512;
+static N_LIVE: [AtomicU32; N_RECS] = [const { AtomicU32::new(0) }; N_RECS];
+static N_NEXT: AtomicU32 = AtomicU32::new(0);
+static N_WAKES: AtomicU64 = AtomicU64::new(0);
+static N_STALE: AtomicU32 = AtomicU32::new(0);
+fn n_rec(data: *const ()) -> &'static AtomicU32 {
+    unsafe { &*(data as *const AtomicU32) }
+}
+fn n_new() -> *const () {
+    let i = N_NEXT.fetch_add(1, Ordering::SeqCst) as usize % N_RECS;
+    N_LIVE[i].store(1, Ordering::SeqCst);
+    &N_LIVE[i] as *const AtomicU32 as *const ()
+}
+static N_VTABLE: std::task::RawWakerVTable = std::task::RawWakerVTable::new(
+    |d| {
+        if n_rec(d).load(Ordering::SeqCst) == 0 {
+            N_STALE.fetch_add(1, Ordering::SeqCst);
+        }
+        std::task::RawWaker::new(n_new(), &N_VTABLE)
+    },
+    |d| {
+        N_WAKES.fetch_add(1, Ordering::SeqCst);
+        if n_rec(d).swap(0, Ordering::SeqCst) == 0 {
+            N_STALE.fetch_add(1, Ordering::SeqCst);
+        }
+    },
+    |d| {
+        N_WAKES.fetch_add(1, Ordering::SeqCst);
+        if n_rec(d).load(Ordering::SeqCst) == 0 {
+            N_STALE.fetch_add(1, Ordering::SeqCst);
+        }
+    },
+    |d| {
+        if n_rec(d).swap(0, Ordering::SeqCst) == 0 {
+            N_STALE.fetch_add(1, Ordering::SeqCst);
+        }
+    },
+);
+fn n_live() -> i64 {
+    N_LIVE.iter().filter(|r| r.load(Ordering::SeqCst) != 0).count() as i64
+}
+fn node_waker() -> Waker {
+    for r in N_LIVE.iter() {
+        r.store(0, Ordering::SeqCst);
+    }
+    N_NEXT.store(0, Ordering::SeqCst);
+    N_WAKES.store(0, Ordering::SeqCst);
+    N_STALE.store(0, Ordering::SeqCst);
+    unsafe { Waker::from_raw(std::task::RawWaker::new(n_new(), &N_VTABLE)) }
+}
+
+/// The caller as a *foreign module*: it does not go through the Rust `Future` impl of the object
+/// but calls the vtable's poll entry itself, with a by-reference waker it built through the
+/// published C layout ({raw words, clone function, wake_by_ref function}; an owned waker is
+/// {raw words, vtable of clone/wake/wake_by_ref/drop}). Its two raw words are its own business
+/// (a record pointer and a tag) — they are NOT a Rust `Waker`; the records are the N_* ones.
+const F_TAG: usize = 0xF0F0_F0F0_F0F0;
+#[repr(transparent)]
+#[derive(Clone, Copy)]
+struct FWords {
+    w: [*const (); 2],
+}
+#[repr(C)]
+struct FOwned {
+    waker: FWords,
+    vtable: &'static FVtbl,
+}
+#[repr(C)]
+struct FVtbl {
+    clone: unsafe extern "C" fn(FWords) -> FOwned,
+    wake: unsafe extern "C" fn(FWords),
+    wake_by_ref: unsafe extern "C" fn(FWords),
+    drop: unsafe extern "C" fn(FWords),
+}
+#[repr(C)]
+struct FRef {
+    raw: *const FWords,
+    clone: unsafe extern "C" fn(*const ()) -> FOwned,
+    wake_by_ref: unsafe extern "C" fn(*const ()),
+}
+fn f_check(w: FWords) {
+    if w.w[1] as usize != F_TAG || n_rec(w.w[0]).load(Ordering::SeqCst) == 0 {
+        N_STALE.fetch_add(1, Ordering::SeqCst);
+    }
+}
+unsafe extern "C" fn fv_clone(w: FWords) -> FOwned {
+    f_check(w);
+    FOwned { waker: FWords { w: [n_new(), F_TAG as *const ()] }, vtable: &F_VTBL }
+}
+unsafe extern "C" fn fv_wake(w: FWords) {
+    N_WAKES.fetch_add(1, Ordering::SeqCst);
+    if w.w[1] as usize != F_TAG || n_rec(w.w[0]).swap(0, Ordering::SeqCst) == 0 {
+        N_STALE.fetch_add(1, Ordering::SeqCst);
+    }
+}
+unsafe extern "C" fn fv_wake_by_ref(w: FWords) {
+    N_WAKES.fetch_add(1, Ordering::SeqCst);
+    f_check(w);
+}
+unsafe extern "C" fn fv_drop(w: FWords) {
+    if w.w[1] as usize != F_TAG || n_rec(w.w[0]).swap(0, Ordering::SeqCst) == 0 {
+        N_STALE.fetch_add(1, Ordering::SeqCst);
+    }
+}
+static F_VTBL: FVtbl = FVtbl { clone: fv_clone, wake: fv_wake, wake_by_ref: fv_wake_by_ref, drop: fv_drop };
+unsafe extern "C" fn fr_clone(p: *const ()) -> FOwned {
+    fv_clone(*(p as *const FWords))
+}
+unsafe extern "C" fn fr_wake_by_ref(p: *const ()) {
+    fv_wake_by_ref(*(p as *const FWords))
+}
+
 const NH: usize = 6;
 
 #[derive(Clone, Copy, Debug)]
@@ -228,7 +344,8 @@ impl Sink<u32> for SimObj {
 }
 
 enum Obj {
-    Fut(Pin<Box<dyn Future<Output = u32> + Send>>),
+    /// second field: the object as raw words (vtable pointer, container…), for the foreign caller
+    Fut(Pin<Box<dyn Future<Output = u32> + Send>>, *const usize),
     Stream(Pin<Box<dyn Stream<Item = u32> + Send>>),
     Sink(Pin<Box<dyn Sink<u32, Error = u32> + Send>>),
 }
@@ -236,7 +353,11 @@ enum Obj {
 fn make_obj(kind: i64, sh: &Arc<Mutex<Shared>>) -> Obj {
     let sim = SimObj { sh: sh.clone() };
     track(|| match kind.rem_euclid(3) {
-        0 => Obj::Fut(Box::pin(trait_obj!(sim as Future))),
+        0 => {
+            let b = Box::pin(trait_obj!(sim as Future));
+            let words = &*b as *const _ as *const usize;
+            Obj::Fut(b, words)
+        }
         1 => Obj::Stream(Box::pin(trait_obj!(sim as Stream))),
         _ => Obj::Sink(Box::pin(trait_obj!(sim as Sink))),
     })
@@ -251,6 +372,10 @@ struct State {
     drops: Arc<AtomicU32>,
     /// caller waker with null data pointer and static state instead of the Arc-based one
     static_caller: bool,
+    /// caller waker with one record per clone (statics again)
+    node_caller: bool,
+    /// the caller is a foreign module polling through the vtable with a hand-made C waker
+    foreign_caller: bool,
     _keep: Option<Arc<CountWaker>>,
     in_poll: bool,
     poll_entry: i64,
@@ -279,8 +404,24 @@ fn do_poll(st: &mut State, counts: &mut Vec<&'static str>) -> Result<String, Vio
     let mut cx = Context::from_waker(caller);
     let entry = st.poll_entry;
     let ready = st.sh.lock().unwrap().ready;
+    let foreign = st.foreign_caller;
     let desc = track(|| match obj {
-        Obj::Fut(f) => match f.as_mut().poll(&mut cx) {
+        Obj::Fut(_, words) if foreign => unsafe {
+            // what a C caller does: first word of the object is the vtable, its first entry is poll
+            // (container, by-reference waker, out slot) -> bool; the container follows the vtable pointer
+            type PollFn = unsafe extern "C" fn(*mut std::ffi::c_void, *const FRef, *mut u32) -> bool;
+            let vtbl = *(*words as *const *const PollFn);
+            let poll: PollFn = *vtbl;
+            let raw = FWords { w: [caller.data(), F_TAG as *const ()] };
+            let fref = FRef { raw: &raw, clone: fr_clone, wake_by_ref: fr_wake_by_ref };
+            let mut out: u32 = 0;
+            if poll((*words).add(1) as *mut std::ffi::c_void, &fref, &mut out) {
+                format!("Future Ready({})", out)
+            } else {
+                "Future Pending".to_string()
+            }
+        },
+        Obj::Fut(f, _) => match f.as_mut().poll(&mut cx) {
             Poll::Ready(v) => format!("Future Ready({})", v),
             Poll::Pending => "Future Pending".to_string(),
         },
@@ -308,6 +449,9 @@ fn do_poll(st: &mut State, counts: &mut Vec<&'static str>) -> Result<String, Vio
         vcheck!(ok, "waker.poll_result", "poll", "poll returned {:?}", desc);
     }
     counts.push("op.Poll");
+    if foreign {
+        counts.push("fault.foreign_module_caller_polls_through_vtable");
+    }
     Ok(format!("Poll {}", desc))
 }
 
@@ -339,7 +483,7 @@ fn apply(st: &mut State, step: &Step, counts: &mut Vec<&'static str>) -> Result<
                 1 => WOp::Wake(h),
                 _ => WOp::Clone(h, (h + 1) % NH),
             };
-            if st.static_caller || st.drops.load(Ordering::SeqCst) > 0 {
+            if st.static_caller || st.node_caller || st.drops.load(Ordering::SeqCst) > 0 {
                 return Ok("OnWake noop".into());
             }
             unsafe { (*st.wref).reactions.lock().unwrap().push(op) };
@@ -399,6 +543,16 @@ fn check(st: &mut State, when: &str) -> VResult {
     let _ = lines;
     st.model_wakes = wakes_done;
     let base = if st.caller.is_some() { 1 } else { 0 };
+    if st.node_caller {
+        let strong = n_live();
+        let seen = N_WAKES.load(Ordering::SeqCst);
+        vcheck!(N_STALE.load(Ordering::SeqCst) == 0, "waker.use_after_release", "record", "{}: the caller's (record-per-clone) waker was cloned, woken or released through a record that had already been released ({} time(s)): every clone has its own data pointer, and a wake must go through a live one", when, N_STALE.load(Ordering::SeqCst));
+        vcheck!(seen == wakes_done, "waker.wake_count", "wakes", "{}: {} wake operation(s) were performed on foreign-side wakers but the caller's (record-per-clone) waker was woken {} time(s)", when, wakes_done, seen);
+        vcheck!(strong >= base, "waker.released_too_often", "count", "{}: the caller's waker has {} live record(s), fewer than the {} the caller itself holds", when, strong, base);
+        vcheck!(live == 0 || strong >= base + 1, "waker.released_too_often", "count", "{}: {} foreign-side handle(s) are alive but none holds a clone of the caller's waker", when, live);
+        vcheck!(strong <= base + live, "waker.leaked_clone", "count", "{}: {} live record(s) of the caller's waker exceed caller's own {} + {} live foreign handle(s)", when, strong, base, live);
+        return Ok(());
+    }
     if st.static_caller {
         let strong = S_LIVE.load(Ordering::SeqCst);
         let seen = S_WAKES.load(Ordering::SeqCst);
@@ -437,13 +591,23 @@ fn state_hash(st: &State) -> u64 {
 
 const OPS: [&str; 11] = ["PollBegin", "PollEnd", "WBorrowWake", "WBorrowClone", "WClone", "WWake", "WWakeRef", "WDrop", "ObjDrop", "CallerDrop", "OnWake"];
 
-fn new_state(kind: i64, static_caller: bool) -> State {
+fn new_state(kind: i64, caller_kind: i64) -> State {
+    let static_caller = caller_kind == 1;
+    // the foreign caller exists for Future objects; it keeps its books in the same records
+    // (not under Miri: it rejects calling a function that returns the hand-made mirror structure
+    // through a pointer typed with cglue's private structure of the same layout — its rule for Rust
+    // callers, not a statement about the C ABI)
+    let foreign_caller = caller_kind == 3 && kind.rem_euclid(3) == 0 && !cfg!(miri);
+    let node_caller = caller_kind == 2 || caller_kind == 3;
     let drops = Arc::new(AtomicU32::new(0));
     let cw = Arc::new(CountWaker { wakes: AtomicU64::new(0), drops: drops.clone(), reactions: Mutex::new(Vec::new()), pool: Mutex::new(None) });
     let w = Arc::downgrade(&cw);
     let wref = Arc::as_ptr(&cw);
     let mut keep = None;
-    let caller = if static_caller {
+    let caller = if node_caller {
+        keep = Some(cw);
+        node_waker()
+    } else if static_caller {
         keep = Some(cw);
         static_waker()
     } else {
@@ -452,7 +616,7 @@ fn new_state(kind: i64, static_caller: bool) -> State {
     let sh = Arc::new(Mutex::new(Shared { pending: Vec::new(), handles: (0..NH).map(|_| None).collect(), wakes_done: 0, effective: 0, reentrant: 0, log: Vec::new(), ready: false }));
     *unsafe { &*wref }.pool.lock().unwrap() = Some(sh.clone());
     let obj = make_obj(kind, &sh);
-    State { sh, obj: Some(obj), w, wref, caller: Some(caller), drops, static_caller, _keep: keep, in_poll: false, poll_entry: 0, model_wakes: 0 }
+    State { sh, obj: Some(obj), w, wref, caller: Some(caller), drops, static_caller, node_caller, foreign_caller, _keep: keep, in_poll: false, poll_entry: 0, model_wakes: 0 }
 }
 
 impl Engine for WakerEngine {
@@ -465,7 +629,7 @@ impl Engine for WakerEngine {
         let threads = rng.range(1, 3);
         p.set("threads", threads);
         p.set("obj", rng.range(0, 2));
-        p.set("static_caller", rng.chance(1, 4) as i64);
+        p.set("caller_kind", [0, 0, 1, 2, 3, 3][rng.below(6) as usize]);
         let max_steps = if rng.chance(1, 2) { rng.range(3, 10) } else { rng.range(10, if thorough { 50 } else { 30 }) };
         let mut w: Vec<u32> = vec![8, 8, 5, 12, 10, 8, 6, 10, 1, 1, 3];
         if rng.chance(1, 2) {
@@ -498,7 +662,7 @@ impl Engine for WakerEngine {
         if ctx.free {
             return exec_free(plan, ctx);
         }
-        let mut st = new_state(plan.cfg("obj", 0), plan.cfg("static_caller", 0) == 1);
+        let mut st = new_state(plan.cfg("obj", 0), plan.cfg("caller_kind", plan.cfg("static_caller", 0)));
         let mut result: VResult = Ok(());
         for (i, step) in plan.steps.iter().enumerate() {
             ctx.cur_step = i as i64;
@@ -576,6 +740,11 @@ impl Engine for WakerEngine {
                 }
                 check(&mut st, "while releasing at quiescence")?;
             }
+            if st.node_caller {
+                vcheck!(n_live() == 0 && N_STALE.load(Ordering::SeqCst) == 0, "waker.leaked_clone", "quiescence", "at quiescence {} record(s) of the caller's (record-per-clone) waker are still alive, {} operation(s) went through released records", n_live(), N_STALE.load(Ordering::SeqCst));
+                simcore::check_alloc("waker")?;
+                return simcore::check_no_leak("waker");
+            }
             if st.static_caller {
                 vcheck!(S_LIVE.load(Ordering::SeqCst) == 0, "waker.leaked_clone", "quiescence", "at quiescence {} clone(s) of the caller's (static-state) waker are still alive", S_LIVE.load(Ordering::SeqCst));
                 simcore::check_alloc("waker")?;
@@ -602,7 +771,7 @@ unsafe impl<T> Send for SendMut<T> {}
 /// ops unsynchronised; end-of-run oracles.
 fn exec_free(plan: &Plan, ctx: &mut RunCtx) -> VResult {
     let threads = plan.cfg("threads", 2).clamp(1, 4) as usize;
-    let mut st = new_state(plan.cfg("obj", 0), false);
+    let mut st = new_state(plan.cfg("obj", 0), 0);
     // phase 1: one poll with all thread-0 ops inside
     st.in_poll = true;
     for step in plan.steps.iter().filter(|s| s.t == 0) {
